@@ -339,3 +339,10 @@ func VerifC15_SubsetFourHosts() {
 	}
 	verif.Cover("end")
 }
+
+// VerifC05_SubsetFourHosts: the same exploration counted for C05 (a host
+// outside the applicable set is never returned).
+func VerifC05_SubsetFourHosts() {
+	VerifC15_SubsetFourHosts()
+	verif.Cover("four-hosts")
+}
